@@ -883,6 +883,68 @@ let suite_send t v =
   v.cls <- "D";
   v.nontrivial <- List.length ireq >= 2
 
+
+(* ============================ suite E : end-to-end sender runs ================ *)
+let suite_e2e t v =
+  let _id = next t in
+  let profile = next t in
+  let params = Hashtbl.create 16 and facts = Hashtbl.create 16 in
+  let rec rd tbl = if eol t then () else
+    let tok = next t in
+    if tok = "=" then rd facts else begin
+      (match String.index_opt tok '=' with
+       | Some i -> Hashtbl.replace tbl (String.sub tok 0 i) (String.sub tok (i + 1) (String.length tok - i - 1))
+       | None -> ());
+      rd tbl end in
+  rd params;
+  let f k = try Hashtbl.find facts k with Not_found -> "" in
+  let fi k = try int_of_string (f k) with _ -> 0 in
+  let p k = try Hashtbl.find params k with Not_found -> "" in
+  let finished = f "finished" = "true" in
+  let all_delivered = fi "delivered_ok" = fi "eligible" in
+  let vanished = fi "source_read_errors" > 0 in
+  (* C02 *)
+  if fi "bad_removes" > 0 || fi "bad_removes_before_crash" > 0 then oracle v "deleted_without_validated_copy" false;
+  if fi "source_lost" > 0 then oracle v "source_gone_receiver_lacks_it" false;
+  (* C08 *)
+  if fi "sent_before_all_acked" > 0 then oracle v "logged_sent_before_all_bytes_acknowledged" false;
+  (* C17 / C01 *)
+  if fi "ineligible_touched" > 0 then oracle v "ineligible_file_sent_or_deleted" false;
+  if fi "alien_final" > 0 then oracle v "delivered_mixture_of_versions" false;
+  (* C07 *)
+  if f "restarted" = "true" then begin
+    if fi "resent_held_bytes" > 0 then oracle v "resent_bytes_receiver_reported_held" false;
+    if not (finished && all_delivered) then oracle v "not_delivered_after_sender_restart" false
+  end;
+  (* C16 *)
+  let stop = p "stop" in
+  if stop = "now" then begin
+    if not finished then oracle v "stop_now_did_not_terminate" false
+    else if fi "stop_ms" > 4000 then oracle v "stop_now_not_prompt" false
+  end;
+  if stop = "graceful" then begin
+    if not finished then oracle v "graceful_stop_did_not_terminate" vanished
+    else if not all_delivered && p "faults" = "0" && p "pollfaults" = "0" then
+      (* a file whose transmission or validation failed is not retried once a stop was requested (by design) *)
+      oracle v "graceful_stop_left_work_undone" false
+  end;
+  (* C03 (and C16 for the final graceful stop of every other run) *)
+  if stop = "-" && f "restarted" <> "true" then begin
+    if not all_delivered then begin
+      (* a file rewritten while parts of it are in flight is outside the premise "source files
+         stop changing" for that stretch; the tracker's per-name progress is then reset by
+         interleaved parts of the two versions and may never complete (recorded finding) *)
+      if profile = "mutate" then oracle v "not_confirmed_after_rewrite_in_flight" true
+      else oracle v "not_delivered_within_bound" false end
+    else if not finished then
+      (* everything delivered and released, but the graceful stop at the end never returns *)
+      oracle v "pipeline_never_drains_after_vanished_file" vanished
+    else if fi "staged_left" > 0 && profile <> "vanish" then oracle v "staging_area_not_empty_at_the_end" false
+  end;
+  if vanished then v.model_fails <- true;
+  v.cls <- (if profile = "mutate" then "F" else "D");
+  v.nontrivial <- fi "tx_calls" >= 2
+
 (* ============================ dispatch ====================================== *)
 let run_line line =
   let t = mk line in
@@ -895,6 +957,7 @@ let run_line line =
       | "L" -> suite_log t v
       | "S" -> suite_stage t v
       | "T" -> suite_send t v
+      | "E" -> suite_e2e t v
       | "LC" -> suite_log_conc t v
       | s -> raise (Malformed ("unknown suite " ^ s)))
    with
